@@ -51,9 +51,10 @@ func (g *Generator) SpecFile(fileContent []byte) GoFile {
 
 func encodeRawFileAsString(s string) string {
 	if strings.Contains(string(s), "\n") {
-		s = "`" + strings.ReplaceAll(string(s), "`", "`+\"`\"+`") + "`"
+		// a raw string literal cannot hold a back quote and drops carriage returns
+		s = "`" + strings.NewReplacer("`", "`+\"`\"+`", "\r", "`+\"\\r\"+`").Replace(string(s)) + "`"
 	} else {
-		s = `"` + strings.ReplaceAll(string(s), `"`, `\"`) + `"`
+		s = `"` + strings.NewReplacer(`\`, `\\`, `"`, `\"`).Replace(string(s)) + `"`
 	}
 	return s
 }
